@@ -525,4 +525,32 @@ def outerTiles : SLayout → List Nat → Nat → SLayout
 /-- the layout chosen for the whole global, given the layout of the subview (one tile) and the shape of the global -/
 def subviewGlobalLayout (l : SLayout) (shape : List Nat) : SLayout := outerTiles l shape (maxExtent l)
 
+/-- fix FC12e, first half (= FC09a): the tile divides the global in every dimension (`zip`: surplus entries are
+    ignored) -/
+def tilesWhole : SLayout → List Nat → Bool
+  | t :: ts, sh :: shs => sh % prodB t == 0 && tilesWhole ts shs
+  | _, _ => true
+
+/-- proposed fix FC12e, second half: every static offset of the subview (`none` = dynamic) is a multiple of the tile
+    size (`zip`: surplus entries are ignored) -/
+def offsAligned : SLayout → List (Option Nat) → Bool
+  | t :: ts, some o :: os => o % prodB t == 0 && offsAligned ts os
+  | _ :: ts, none :: os => offsAligned ts os
+  | _, _ => true
+
+/-- the guards that FC12e adds to `ApplyLayoutCastSubviewGlobal`; `fixWhole` / `fixAligned` = false: the code as found
+    without that guard (findings DC12f / DC12e) -/
+def subviewGlobalGuard (fixWhole fixAligned : Bool) (l : SLayout) (shape : List Nat) (offs : List (Option Nat)) : Bool :=
+  (!fixWhole || tilesWhole l shape) && (!fixAligned || offsAligned l offs)
+
+/-- element `i` (per dimension, inside the tile) of tile number `q` -/
+def tilePoint : SLayout → List Nat → List Nat → List Nat
+  | t :: ts, q :: qs, i :: is => (prodB t * q + i) :: tilePoint ts qs is
+  | _, _, _ => []
+
+/-- first element of tile number `q` -/
+def tileBase : SLayout → List Nat → List Nat
+  | t :: ts, q :: qs => (prodB t * q) :: tileBase ts qs
+  | _, _ => []
+
 end SnaxVerif.Casts
